@@ -145,6 +145,11 @@ def run(ctx):
     fp_steps = sum(r["steps"] for r in fps)
     fp_writes = 0
     for r in fps:
+        for nid in r.get("not_frozen") or []:
+            kind = r["desc"]["nodes"][nid]["kind"]
+            ctx.finding("shared-value-not-frozen:%s" % kind,
+                        "footprints round %d: %s node %d is reachable from the finished module's globals, yet its frozen flag is not set: threads sharing the module share a mutable value" % (r["round"], kind, nid),
+                        {"module": r["src"], "seed": r["seed"], "round": r["round"], "node": nid, "how": "c05 child -scenario footprints -seed %d -rounds %d (flag read through starlark.VerifFrozen)" % (r["seed"], r["round"] + 1)})
         for dv in r.get("derived") or []:
             kind = r["desc"]["nodes"][dv["node"]]["kind"]
             fz = any(w["frozen"] for w in dv["writes"])
